@@ -54,6 +54,67 @@ reg(
     "NumPy implementations are the reference (judged by C02/C03/C15/C16/C18); tolerances 1e-9 double, 2e-4 single.",
 )
 
+reg(
+    "C05",
+    "Hypothesis property-based testing against independent layout/triangle/Gabor/gammatone reference formulas (banks_ref.py) and numerical gain, crossing, ERB and L2 measurements",
+    "Generated banks over 4 classes x 4 scales x rates x ranges x flags; clauses: layout (edges equally spaced on the scale, centres increasing and inside supports_hz), triangle at every DFT bin, peak gain / 3 dB crossing / ERB, unit L2 norm, rejection of invalid ranges with ValueError. Found and now guards F05a/b/c.",
+    "own scale formulas from the cited papers; both readings of '3 dB' accepted; gain clauses only for filters spanning < rate/2.",
+)
+reg(
+    "C06",
+    "Hypothesis property-based testing of consistency relations between get_truncated_response (documented recipe), get_frequency_response and its half=True form",
+    "Generated (bank, filter, DFT width 2..4096 incl. widths below the bandwidth) triples; rebuilt response within 2x threshold (identical for triangular/Fbank), start bin range, half-spectrum containment, Hermitian symmetry, analytic zeros, finiteness.",
+    "the documented recipe is the specification; EFFECTIVE_SUPPORT_THRESHOLD read from config.",
+)
+reg(
+    "C07",
+    "Hypothesis property-based testing: inverse DFT of the frequency response vs the impulse response, and magnitudes outside the advertised supports",
+    "Generated (bank, filter, buffer width >= max(temporal support, 2*rate/bandwidth)) for zero-phase banks and gammatone order >= 3 without L2; agreement within 2x threshold, realness iff is_real, outside-support bounds, support placement. Found and now guards F07.",
+    "filters whose supports_hz span exceeds the sampling rate are outside the statement (no buffer resolves them); buffers capped at 8192 samples.",
+)
+reg(
+    "C09",
+    "Hypothesis property-based testing of both command-line tools (in-process) against a reference pipeline built from explicit NumPy objects; metamorphic clauses for config syntax and --seed",
+    "Generated utterance sets (containers, channels, too-short signals, rate mismatch, --min-duration, --channel, --manifest, --num-workers), computer/pre/post configurations in three syntaxes; stored ids and matrices must equal the library pipeline. Found and now guards F09a/F09b.",
+    "float32 storage tolerance 2e-4; dither>0 only in the fixed-seed metamorphic clause; reference-pipeline failures define the domain (discarded, counted).",
+)
+reg(
+    "C11",
+    "Hypothesis round-trip testing per container with the container's own writer, error-contract clauses, and forked-child fuzzing of wds_read_signal with mutated valid files and random bytes",
+    "Round trips (path, open file, BytesIO) for wav16/32, flac, aiff, npy, npz, pt, hdf5, raw, sph incl. dtype casts and keys; IOError/ValueError contracts; wds_read_signal equals the path read on valid bytes and returns ndarray/None without raising (or crashing natively) on garbage. Found and now guards F11a.",
+    "writers (wave, soundfile, numpy, torch, h5py, own SPHERE writer) are trusted; casts generated in range; 8/24-bit wav and ogg are outside the statement.",
+)
+reg(
+    "C12",
+    "Hypothesis round-trip testing with an independent SPHERE writer and an independent ITU-T G.711 decoder; exhaustive enumeration of both code tables",
+    "Generated codings x channels 1..8 x sample counts around the 16 KiB read boundaries x header sizes/layouts x dtypes x access paths; truncated data sections; all 256 codes x 2 laws; malformed headers. Found and now guards F12a/F12b.",
+    "own writer and G.711 segment formulas (self-tested) are the reference.",
+)
+reg(
+    "C13",
+    "Hypothesis round-trip testing with an independent randomised shorten v1/v2 encoder (validated bit-for-bit against the six sph2pipe vectors); exhaustive prefix truncation for the error contract",
+    "Generated encoder programs (version, type, channels, block sizes, nmean, maxnlpc, per-block command/LPC coefficients/residual width, BLOCKSIZE/BITSHIFT commands, long multi-refill streams) must decode to the encoded samples; reference vectors equal their WAVs; every strict prefix, undefined commands and versions raise IOError. Found and now guards F13a/F13b.",
+    "own encoder is the reference (self-test against shipped vectors); mu-law with non-zero bit shift not generated.",
+)
+reg(
+    "C15",
+    "Hypothesis property-based testing against explicit-loop reference models of the Kaldi delta recursion and the Stack layout",
+    "Generated tensors (1-4 dims, empty axes, int/float dtypes), axes incl. negative, num_deltas, context windows, four pad modes, num_vectors incl. more than the frame count; 2-D and N-D paths cross-checked; inputs unchanged.",
+    "own padding index maps replicate numpy.pad semantics for the four generated modes (self-tested).",
+)
+reg(
+    "C16",
+    "Hypothesis property-based testing over accumulate histories (partitions/permutations/presentations of a data set) against longdouble moments; metamorphic additivity",
+    "apply == (x-mean)/std for any split, order and axis presentation; own-statistics mode gives mean 0 / variance 1; float64 result; ValueError on dimension mismatch; input untouched unless in_place.",
+    "variances kept >= 1e-3 by construction (the isclose-to-zero replacement is not part of the statement).",
+)
+reg(
+    "C17",
+    "Hypothesis property-based testing over save/reload histories per file kind (round trip of the transform), including repeated saves and foreign archive entries",
+    "save -> Standardize(rfilename) -> identical apply for .npy/.npz(key, compress)/raw; repeated saves succeed; overwrite flag decides whether other npz entries are kept (either direction accepted, must be consistent); ValueError without statistics. Found and now guards F17a/F17b.",
+    "temporary directories per case.",
+)
+
 NOT_APPLICABLE = {}
 
 
